@@ -52,6 +52,9 @@ func TestRtpHeaderExtrasVectors(t *testing.T) {
 	eq(t, "onvif", Pkt{PT: 96, Marker: true, Seq: 1, TS: 2, SSRC: 3, HasExt: true, ExtProfile: 0xabac,
 		Ext: hx(t, "e1e2e3e4 00000000 40000000"), Payload: []byte{0x41, 0x9a}}.Marshal(),
 		"90 e0 0001 00000002 00000003 abac 0003 e1e2e3e4 00000000 40000000 419a")
+	// §5.1 padding: P -> 0x20, last octet = number of padding octets incl. itself
+	eq(t, "pad", Pkt{PT: 97, Marker: true, Seq: 1, TS: 2, SSRC: 3, Payload: []byte{0x00, 0x10, 0x00, 0x08, 0xaa}, Pad: 3}.Marshal(),
+		"a0 e1 0001 00000002 00000003 00100008aa 000003")
 	// empty extension: X set, length 0
 	eq(t, "ext0", Pkt{PT: 97, Seq: 1, TS: 2, SSRC: 3, HasExt: true, ExtProfile: 0xbede, Payload: []byte{9}}.Marshal(),
 		"90 61 0001 00000002 00000003 bede 0000 09")
